@@ -167,6 +167,14 @@ func c07Child(args []string) {
 		runtime.LockOSThread()
 	}
 	dir, markers := args[0], args[1]
+	if rel := os.Getenv("C07_RELDIR"); rel != "" {
+		// the WAL directory named relative to the working directory ("." or "./"), as a
+		// program started inside its data directory would
+		if err := os.Chdir(dir); err != nil {
+			os.Exit(6)
+		}
+		dir = rel
+	}
 	seed, _ := strconv.ParseInt(args[2], 10, 64)
 	nops, _ := strconv.Atoi(args[3])
 	killAt, _ := strconv.Atoi(args[4])
@@ -742,6 +750,9 @@ func c07Scenario(c *evid.Ctx, seed int64, kills []string, nops int, only ...stri
 		if inject != "" {
 			cmd.Env = append(os.Environ(), "C07_LOCK_THREAD=1")
 		}
+		if strings.HasPrefix(kill, "reldir:") {
+			cmd.Env = append(os.Environ(), "C07_RELDIR="+strings.TrimPrefix(kill, "reldir:"))
+		}
 		out, err := cmd.CombinedOutput()
 		res, perr := proc.Parse(logf, markers)
 		if perr != nil || res == nil || len(res.Events) == 0 {
@@ -850,6 +861,9 @@ func runC07(c *evid.Ctx) {
 		{[]string{"pinned", "pinned"}, 6, ":R"},
 		// the directory is swapped for a new one under the same path inside one process
 		{[]string{"swapdir"}, 30, ":R1:|:R2:"},
+		// the directory passed as "." / "./" / a relative path with a component
+		{[]string{"reldir:."}, 30, ""},
+		{[]string{"reldir:./", "reldir:."}, 25, ""},
 		// failing fsyncs (of segment files and of the directory) injected into the kernel calls:
 		// the calls that hit them return errors, later ones succeed and are acknowledged - and
 		// must still satisfy R1 and R2 (only successful fsyncs count)
